@@ -340,7 +340,31 @@ def transform(T, k, c, F, graph, fn=None):
         return S.FlipPolarity(F)
     if T in COMP:
         L, Rn, edges = graph
-        B = scope.mk_bipartite(L, Rn, [tuple(e) for e in edges])
+        mode = (len(edges) + 2 * L + Rn) % 3
+        if mode == 0 or L == 0 or Rn == 0:
+            B = scope.mk_bipartite(L, Rn, [tuple(e) for e in edges])
+        else:
+            # the graph is also accepted as a networkx graph with the
+            # 'bipartite' node attribute (BipartiteGraph.normalize): each side
+            # inserted in index order, the two sides right-first or interleaved,
+            # edges given right endpoint first
+            import networkx
+            B = networkx.Graph()
+            lefts = [('l', i) for i in range(1, L + 1)]
+            rights = [('r', j) for j in range(1, Rn + 1)]
+            if mode == 1:
+                seq = rights + lefts
+            else:
+                seq = []
+                for t in range(max(L, Rn)):
+                    if t < Rn:
+                        seq.append(rights[t])
+                    if t < L:
+                        seq.append(lefts[t])
+            for side, i in seq:
+                B.add_node('%s%d' % (side, i), bipartite=0 if side == 'l' else 1)
+            for (u, v) in edges:
+                B.add_edge('r%d' % v, 'l%d' % u)
         return S.VariableCompression(F, B, fn if fn is not None else T[:3])
     raise KeyError(T)
 
